@@ -36,10 +36,12 @@ EXPONENTS = {
 HEAD = "def fi(a: int) -> int:\n    return a\n\n\ndef ff(a: float) -> float:\n    return a\n\n\n"
 SIG = "i: int, j: int, f: float, g: float"
 # module-level consts declared before (HEAD) and after (TAIL) the function under test, with and without annotation
-HEAD = "const KIE = 7\nconst KFE = 3 * 0.5\nconst KIEA: int = 7\nconst KFEA: float = 1.5\n\n\n" + HEAD
+# KIW / KFW are referred to by consts declared BEFORE them (the evaluator meets them first as a dependency)
+HEAD = "const KUF = KFW * 2.0\nconst KUI = KIW + 1\nconst KIE = 7\nconst KFE = 3 * 0.5\nconst KIEA: int = 7\nconst KFEA: float = 1.5\nconst KFW = 3.5\nconst KIW = 7\n\n\n" + HEAD
 TAIL = "\n\nconst KIL = 7\nconst KFL = 3 * 0.5\nconst KILA: int = 7\nconst KFLA: float = 1.5\n"
 CONST_OPERANDS = {
     "int_const_early": ("KIE", "int"), "float_const_early": ("KFE", "float"), "int_const_early_annotated": ("KIEA", "int"), "float_const_early_annotated": ("KFEA", "float"),
+    "int_const_referenced_by_earlier_const": ("KIW", "int"), "float_const_referenced_by_earlier_const": ("KFW", "float"),
     "int_const_late": ("KIL", "int"), "float_const_late": ("KFL", "float"), "int_const_late_annotated": ("KILA", "int"), "float_const_late_annotated": ("KFLA", "float"),
 }
 
@@ -72,6 +74,10 @@ def expressions(tier):
         for (cn, (c, ct)), (pn, (p_, pt)) in itertools.product(CONST_OPERANDS.items(), partners):
             yield (f"op:{op}", f"l:{cn}", f"r:{pn}"), f"{c} {op} {p_}", table(op, ct, pt)
             yield (f"op:{op}", f"l:{pn}", f"r:{cn}"), f"{p_} {op} {c}", table(op, pt, ct)
+    # `**` with a const on either side: a const exponent is not a literal, so the result is float
+    for (cn, (c, ct)), (pn, (p_, pt)) in itertools.product(CONST_OPERANDS.items(), partners):
+        yield ("op:**", f"l:{pn}", f"exp:{cn}"), f"{p_} ** {c}", table("**", pt, ct, False)
+        yield ("op:**", f"l:{cn}", f"exp:{pn}"), f"{c} ** {p_}", table("**", ct, pt, pn == "int_lit")
     # depth 2: (a op1 b) op2 c and a op1 (b op2 c) over variables
     vs = [("i", "int"), ("f", "float")]
     ops2 = ARITH if tier == "thorough" else ["+", "/", "//", "%", "*"]
@@ -181,16 +187,20 @@ def run(tier):
                     ctx = () if bk == "body" else (f"block:{bk}",)
                     meta.append(((f"compound:{cop}", f"target:{mt}", f"r:{rn}") + ctx, f"m {cop} {rtxt}", ty, f"compound_{mt}", mt, src))
                     k += 1
-    # const initialisers (literal expressions only)
+    # const initialisers: literal and const-reference operands, the const alone / referred to by an earlier const
+    c_ops = (("7", "int", True), ("7.5", "float", True), ("CI", "int", False), ("CF", "float", False))
+    c_rhs = (("2", "int", True), ("2.0", "float", True), ("CI", "int", False), ("CF", "float", False))
     for op in ARITH:
-        for l, lt in (("7", "int"), ("7.5", "float")):
-            for r_, rt in (("2", "int"), ("2.0", "float")):
-                nn = rt == "int"
-                ty = table(op, lt, rt, nn)
-                for ann in ("int", "float"):
-                    src = f"const K: {ann} = {l} {op} {r_}\n\n\ndef main() -> None:\n    pass\n"
+        for (l, lt, _), (r_, rt, rlit) in itertools.product(c_ops, c_rhs):
+            ty = table(op, lt, rt, rt == "int" and rlit)
+            for ann in ("int", "float"):
+                for layout, before in (("alone", ""), ("referenced_by_earlier_const", "const EARLY: float = K * 2.0\n")):
+                    src = f"const CI = 3\nconst CF = 1.5\n{before}const K: {ann} = {l} {op} {r_}\n\n\ndef main() -> None:\n    pass\n"
                     reqs.append({"id": k, "op": "types", "src": src})
-                    meta.append(((f"const:{op}", lt, rt), f"{l} {op} {r_}", ty, f"const_{ann}", ann, src))
+                    lk = "lit" if l[0].isdigit() else "const"
+                    rk = "lit" if rlit else "const"
+                    extra = () if layout == "alone" else (layout,)
+                    meta.append(((f"const:{op}", lt, rt, f"l:{lk}", f"r:{rk}") + extra, f"{l} {op} {r_}", ty, f"const_{ann}", ann, src))
                     k += 1
     res = serve.run_requests(reqs)
     accepted_bindings = []
@@ -271,7 +281,7 @@ def run(tier):
         "distinct_nontrivial": len(sig_ok),
         "rule": "every operator (7 arithmetic, 6 comparison) x left operand kind x right operand kind (int/float literal, variable, parenthesised sub-expression), every `**` "
         "exponent kind (non-negative / zero / negative literal, int variable, int sub-expression, float literal / variable), depth-2 (thorough: depth-3) nestings over int/float "
-        "variables; module-level consts (int / float, annotated / inferred, declared before / after the function) as left or right operand of every operator with 4 partner kinds; each in 7 binding positions + 6 compound assignments x 6 right-hand kinds x int/float target x 8 block contexts (function body, if, else, elif, while, for, for+if, match arm) + const initialisers; static oracle = the table of "
+        "variables; module-level consts (int / float, annotated / inferred, declared before / after the function, or referred to by an earlier const) as left or right operand of every operator (incl. `**` base and exponent) with 4 partner kinds; each in 7 binding positions + 6 compound assignments x 6 right-hand kinds x int/float target x 8 block contexts (function body, if, else, elif, while, for, for+if, match arm) + const initialisers (literal / const-reference operands x 7 operators x int/float annotation x the const alone / referred to by an earlier const); static oracle = the table of "
         "numeric_semantics.md against the checker's recorded expression type and its accept/reject verdict; dynamic oracle = every accepted annotated binding compiles with rustc "
         "(quick: every sixth)",
         "samples": [{"sig": list(s), "expr": e, "table_type": t} for s, e, t in common.pick_samples(exprs)],
